@@ -1,4 +1,128 @@
+/-
+  C06 — Spec side of the driver: the statement "the printed text reads back as the same tree", evaluated
+  with the model lexer on every token-level word of a tree (command words, redirection operands,
+  here-document delimiters, `for` names and values, `case` subjects and patterns, function names).
+
+  A word is checked when it lies in the fragment the model lexer covers: no command substitution or
+  arithmetic expansion anywhere inside, and tilde expansions only in first position (the others come from
+  `parse_tilde_everywhere`, which belongs to the assignment / declaration-utility rules of the parser).
+-/
 import YashModel.Syntax.Model
+import YashModel.Syntax.Lexer
 namespace YashModel.Syntax
-def specColumn (_l : List Item) : String := "-"
+
+mutual
+  def modelledTextUnit : TextUnit → Bool
+    | .literal _ | .backslashed _ | .rawParam _ | .backquote _ => true
+    | .commandSubst _ | .arith _ => false
+    | .bracedParam _ m => modelledModifier m
+  def modelledModifier : Modifier → Bool
+    | .none | .length => true
+    | .switch _ _ w => modelledWord w
+    | .trim _ _ w => modelledWord w
+  def modelledText : List TextUnit → Bool
+    | [] => true
+    | u :: us => modelledTextUnit u && modelledText us
+  def modelledWordUnit : WordUnit → Bool
+    | .unquoted u => modelledTextUnit u
+    | .singleQuote _ | .dollarSingleQuote _ | .tilde _ _ => true
+    | .doubleQuote t => modelledText t
+  def modelledWord : List WordUnit → Bool
+    | [] => true
+    | u :: us => modelledWordUnit u && modelledWord us
+end
+
+def hasLaterTilde : List WordUnit → Bool
+  | [] => false
+  | _ :: us => us.any fun | .tilde _ _ => true | _ => false
+
+mutual
+  def eqTextUnit : TextUnit → TextUnit → Bool
+    | .literal a, .literal b => a = b
+    | .backslashed a, .backslashed b => a = b
+    | .rawParam a, .rawParam b => a = b
+    | .bracedParam a m, .bracedParam b n => a = b && eqModifier m n
+    | .commandSubst a, .commandSubst b => a = b
+    | .backquote a, .backquote b => a = b
+    | .arith a, .arith b => eqText a b
+    | _, _ => false
+  def eqModifier : Modifier → Modifier → Bool
+    | .none, .none => true
+    | .length, .length => true
+    | .switch c a w, .switch c' a' w' => c = c' && a = a' && eqWord w w'
+    | .trim s l w, .trim s' l' w' => s = s' && l = l' && eqWord w w'
+    | _, _ => false
+  def eqText : List TextUnit → List TextUnit → Bool
+    | [], [] => true
+    | a :: as, b :: bs => eqTextUnit a b && eqText as bs
+    | _, _ => false
+  def eqWordUnit : WordUnit → WordUnit → Bool
+    | .unquoted a, .unquoted b => eqTextUnit a b
+    | .singleQuote a, .singleQuote b => a = b
+    | .doubleQuote a, .doubleQuote b => eqText a b
+    | .dollarSingleQuote a, .dollarSingleQuote b => a = b
+    | .tilde a s, .tilde b t => a = b && s = t
+    | _, _ => false
+  def eqWord : List WordUnit → List WordUnit → Bool
+    | [], [] => true
+    | a :: as, b :: bs => eqWordUnit a b && eqWord as bs
+    | _, _ => false
+end
+
+/-- verdict on one token-level word: `none` = not in the modelled fragment -/
+def checkWord (w : Word) : Option Bool :=
+  if !modelledWord w || hasLaterTilde w || w.isEmpty then none else
+  match lexWord .token (printWord w ++ [' ']) with
+  | some (w', [' ']) => some (eqWord (parseTildeFront w') w)
+  | _ => some false
+
+def redirWord : Redir → Word
+  | .normal _ _ w => w
+  | .hereDoc _ _ w => w
+
+def simpleWords (c : SimpleCommand) : List Word :=
+  c.words ++ c.redirs.map redirWord ++
+    (c.assigns.flatMap fun a => match a.value with | .scalar _ => [] | .array ws => ws)
+
+mutual
+  def compoundWords : CompoundCommand → List Word
+    | .grouping l => listWords l
+    | .subshell l => listWords l
+    | .forLoop n vs b => n :: ((vs.getD []) ++ listWords b)
+    | .whileLoop c b => listWords c ++ listWords b
+    | .untilLoop c b => listWords c ++ listWords b
+    | .ifCmd c b es _ e => listWords c ++ listWords b ++ elifWords es ++ listWords e
+    | .caseCmd s items => s :: caseWords items
+  def elifWords : List ElifThen → List Word
+    | [] => []
+    | .mk c b :: rest => listWords c ++ listWords b ++ elifWords rest
+  def caseWords : List CaseItem → List Word
+    | [] => []
+    | .mk ps b _ :: rest => ps ++ listWords b ++ caseWords rest
+  def commandWords : Command → List Word
+    | .simple c => simpleWords c
+    | .compound c rs => compoundWords c ++ rs.map redirWord
+    | .function _ n c rs => n :: (compoundWords c ++ rs.map redirWord)
+  def commandsWords : List Command → List Word
+    | [] => []
+    | c :: cs => commandWords c ++ commandsWords cs
+  def pipelineWords : Pipeline → List Word
+    | .mk cs _ => commandsWords cs
+  def andOrRestWords : List AndOrRest → List Word
+    | [] => []
+    | .mk _ p :: rest => pipelineWords p ++ andOrRestWords rest
+  def itemWords : Item → List Word
+    | .mk (.mk first rest) _ => pipelineWords first ++ andOrRestWords rest
+  def listWords : List Item → List Word
+    | [] => []
+    | i :: is => itemWords i ++ listWords is
+end
+
+/-- second output column of the driver -/
+def specColumn (l : List Item) : String :=
+  let rs := (listWords l).filterMap checkWord
+  if rs.isEmpty then "-"
+  else if rs.all id then "ok"
+  else "FAIL:a-printed-word-does-not-read-back"
+
 end YashModel.Syntax
